@@ -28,7 +28,7 @@ from ..shims import LoggingIterable, Tracer
 from ..tlc import run_tlc, validate_traces
 
 LEVEL = "model_checking"
-SUFFIX = {"xyz": "t.xyz", "pdb": "t.pdb", "mol2": "t.mol2", "sdf": "t.sdf", "gromacs": "t.gro", "extxyz": "t.extxyz"}
+SUFFIX = {"xyz": "t.xyz", "pdb": "t.pdb", "mol2": "t.mol2", "sdf": "t.sdf", "gromacs": "t.gro", "extxyz": "t.extxyz", "fchk": "t.fchk"}
 CUT_WARNS = {"pdb": True}
 
 
@@ -184,6 +184,73 @@ def corrupt_count(fmt, text):
 
 
 # ------------------------------------------------------------------ executing loads
+def render_fchk_trajectory(rng, nsteps, natom, irc):
+    """A formatted checkpoint file of an optimisation / IRC job: arrays of all geometries of every point.
+    -> (text, expected frames [(ipoint, istep, energy, second result, coords, gradient)])"""
+    prefix = "IRC point" if irc else "Opt point"
+
+    def arr(label, vals, real=True):
+        out = [f"{label:<40s}   {'R' if real else 'I'}   N={len(vals):12d}"]
+        per = 5 if real else 6
+        for c in range(0, len(vals), per):
+            out.append("".join((f"{v:16.8E}" if real else f"{int(v):12d}") for v in vals[c:c + per]))
+        return out
+
+    z = [rng.choice([1, 6, 7, 8, 9, 17]) for _ in range(natom)]
+    lines = [f"trajectory {natom} atoms {len(nsteps)} points", f"{'Opt' if not irc else 'IRC':<10s}{'RHF':<30s}{'STO-3G':>30s}",
+             f"{'Number of atoms':<40s}   I     {natom:12d}"]
+    lines += arr("Atomic numbers", z, False) + arr("Nuclear charges", [float(x) for x in z])
+    cur = [round(0.1 * (i + 1), 8) for i in range(3 * natom)]
+    lines += arr("Current cartesian coordinates", cur)
+    lines += arr(("IRC" if irc else "Optimization") + " Number of geometries", nsteps, False)
+    frames = []
+    tag = 0
+    for ip, ns in enumerate(nsteps):
+        res, geo, grad = [], [], []
+        for st in range(ns):
+            tag += 1
+            e = float(f"{-75.0 - 0.013 * tag:.8E}")
+            r2 = float(f"{0.05 * tag * (-1) ** tag:.8E}")
+            xyz = np.array([[float(f"{(-1) ** (i + k) * (0.5 + 0.01 * tag + 0.13 * i + 0.007 * k):.8E}") for k in range(3)] for i in range(natom)])
+            g = np.array([[float(f"{(-1) ** (i + k + tag) * (0.001 * tag + 0.0001 * (3 * i + k)):.8E}") for k in range(3)] for i in range(natom)])
+            res += [e, r2]
+            geo += list(xyz.ravel())
+            grad += list(g.ravel())
+            frames.append({"ipoint": ip, "istep": st, "nstep": ns, "npoint": len(nsteps), "energy": e, "recor": r2, "xyz": xyz, "grad": g, "z": z})
+        lines += arr(f"{prefix} {ip + 1:7d} Results for each geome", res)
+        lines += arr(f"{prefix} {ip + 1:7d} Geometries", geo)
+        lines += arr(f"{prefix} {ip + 1:7d} Gradient at each geome", grad)
+    return "\n".join(lines) + "\n", frames
+
+
+def fchk_frame_same(data, exp, irc):
+    ex = data.extra or {}
+    ok = (np.array_equal(np.asarray(data.atnums), np.asarray(exp["z"])) and np.allclose(data.atcoords, exp["xyz"], rtol=1e-12, atol=0)
+          and np.allclose(data.atgradient, exp["grad"], rtol=1e-12, atol=0) and abs(data.energy - exp["energy"]) <= 1e-12 * abs(exp["energy"])
+          and ex.get("ipoint") == exp["ipoint"] and ex.get("istep") == exp["istep"] and ex.get("nstep") == exp["nstep"]
+          and ex.get("npoint") == exp["npoint"])
+    if irc:
+        ok = ok and abs(ex.get("reaction_coordinate", 1e99) - exp["recor"]) <= 1e-12 * max(1.0, abs(exp["recor"]))
+    return bool(ok)
+
+
+def fchk_trajectory_tasks(rng, thorough):
+    tasks = []
+    shapes = [[1], [2], [1, 1], [3, 1, 2], [2, 5]] if not thorough else [[1], [2], [1, 1], [3, 1, 2], [2, 5], [7, 1, 1, 4], [12], [1] * 6, [5, 6, 7]]
+    for nsteps in shapes:
+        for natom in ([1, 2, 5] if not thorough else [1, 2, 3, 5, 6, 11]):
+            for irc in (False, True):
+                text, frames = render_fchk_trajectory(rng, nsteps, natom, irc)
+                total = len(frames)
+                base = {"fmt": "fchk", "many": True, "text": text, "frames": ["ok"] * total, "cutwarns": False, "singles": [],
+                        "expect": frames, "irc": irc}
+                tasks.append(dict(base, discard=0, note=f"fchk trajectory {nsteps} x {natom} atoms"))
+                tasks.append(dict(base, discard=-1, note="fchk trajectory, iterator dropped before the first frame"))
+                for k in sorted({1, total // 2, total} - {0}):
+                    tasks.append(dict(base, discard=k, note=f"fchk trajectory, discard after {k}"))
+    return tasks
+
+
 def classify_exc(exc):
     from iodata.utils import FileFormatError, LoadError
     if type(exc) is LoadError:
@@ -220,7 +287,10 @@ def load_exec(task):
                             out = "discarded"
                         for data in ([] if out else gen):
                             n += 1
-                            same = n <= len(task["singles"]) and digest(data) == task["singles"][n - 1]
+                            if "expect" in task:
+                                same = n <= len(task["expect"]) and fchk_frame_same(data, task["expect"][n - 1], task["irc"])
+                            else:
+                                same = n <= len(task["singles"]) and digest(data) == task["singles"][n - 1]
                             tr.log({"ev": "yield", "i": n, "same": bool(same), "valid": not consistent(data)})
                             if task["discard"] == n:
                                 gen.close()
@@ -425,6 +495,9 @@ def check(run: Run):
             dump_traces.append(dt)
             dump_infos.append({"fmt": fmt, "note": gk, "msg": "", "task": [fmt, n, seed, th, gk]})
         tasks += ts
+    ftasks = fchk_trajectory_tasks(rng, run.thorough())
+    tasks += ftasks
+    run.notes["fchk_trajectory_executions"] = len(ftasks)
     results = pmap(load_exec, tasks)
     ltraces = [r[0] for r in results]
     reached = validate_traces(run, "Trace_ApiLoad", ltraces, chunk=2000)
@@ -451,7 +524,8 @@ def check(run: Run):
     run.assumptions += [
         "MOL2 has no end marker and optional record sections: a cut between sections is a valid shorter file (not generated)",
         "PDB: a trailing fragment without ATOM/HETATM records is trailing material, not a frame; a cut frame is reported by the documented 'END is not found' warning",
-        "FCHK optimisation/IRC trajectories are not frame-sequential in the file (arrays of all points): covered by the corpus checks of C07/C16 only",
+        "FCHK optimisation / IRC trajectories (arrays of all geometries per point) are rendered independently; every frame is compared "
+        "with the slice of the arrays it must come from (energy, coordinates, gradient, reaction coordinate, point / step counters)",
     ]
 
 
